@@ -609,6 +609,19 @@ static void execute_run(int out_fd)
     {
       rec("fc result=throw exc=other what=" + sanitize(e.what()));
     }
+    if (!fc_ok && (R.probes & 2))
+    {
+      // the user catches the error and simply tries again: nothing has been bound in between, so it must fail again
+      try
+      {
+        g_model.shell.final_construct(g_shell, &parent_meta, R.parent_mode == 0);
+        rec("fc_retry result=ok");
+      }
+      catch (const std::exception& e)
+      {
+        rec("fc_retry result=throw what=" + sanitize(e.what()));
+      }
+    }
 
     if (fc_ok && g_model.mc_port >= 0 && (R.probes & 1))
     {
